@@ -518,11 +518,21 @@ func (r *c01Run) checkCapture(s, d int, c *mem.Conn) int {
 
 // ---- handlers (registered on both peers) -------------------------------------------------------------
 
+// c01Extra: the value of the second metadata pair that travels with every message (request key
+// "c01e", reply key "c01f"): a function of the metadata token, EMPTY for every third token (a
+// value-less pair on the wire) — a pooled context / message must not show an earlier message's value.
+func c01Extra(m uint64) string {
+	if m%3 == 0 {
+		return ""
+	}
+	return "x" + strconv.FormatUint(m*7+1, 10)
+}
+
 type c01Svc struct{ erpc.CallCtx }
 type c01Psh struct{ erpc.PushCtx }
 
 // c01Enter: the oracle on a handler / push-receiver input, and the E event.
-func c01Enter(sess erpc.CtxSession, seq int32, metaTok []byte, text string, isPush bool) (r *c01Run, s, d int, a, m uint64, good bool) {
+func c01Enter(sess erpc.CtxSession, seq int32, metaTok []byte, text string, isPush bool, extra ...[]byte) (r *c01Run, s, d int, a, m uint64, good bool) {
 	r, _ = c01Cur.Load().(*c01Run)
 	if r == nil {
 		return nil, 0, 0, 0, 0, false
@@ -561,6 +571,9 @@ func c01Enter(sess erpc.CtxSession, seq int32, metaTok []byte, text string, isPu
 		r.viol("handler-input", "c01:handler-input-mismatch", "session %d end %d seq %d: token %d arrived with metadata %d (push=%v), sent with %d (push=%v)", s, d, seq, a, m, isPush, is.m, is.isPush)
 		return r, s, d, a, m, false
 	}
+	if len(extra) == 1 && string(extra[0]) != c01Extra(m) {
+		r.viol("handler-input", "c01:handler-input-mismatch", "session %d end %d seq %d: token %d arrived with second metadata value %q, sent with %q", s, d, seq, a, extra[0], c01Extra(m))
+	}
 	if atomic.AddInt32(&is.seen, 1) != 1 {
 		r.viol("delivery", "c01:duplicate-delivery", "session %d end %d seq %d: token %d delivered more than once", s, d, seq, a)
 	}
@@ -568,7 +581,7 @@ func c01Enter(sess erpc.CtxSession, seq int32, metaTok []byte, text string, isPu
 }
 
 func c01Serve(ctx erpc.CallCtx, cd int, text string) (string, *erpc.Status) {
-	r, s, d, a, m, _ := c01Enter(ctx.Session(), ctx.Seq(), ctx.PeekMeta("c01m"), text, false)
+	r, s, d, a, m, _ := c01Enter(ctx.Session(), ctx.Seq(), ctx.PeekMeta("c01m"), text, false, ctx.PeekMeta("c01e"))
 	if r == nil {
 		return "", erpc.NewStatus(c01FailCode+1, "no run", "")
 	}
@@ -582,6 +595,7 @@ func c01Serve(ctx erpc.CallCtx, cd int, text string) (string, *erpc.Status) {
 		return "", erpc.NewStatus(c01FailCode, "c01 deliberate", "")
 	}
 	ctx.SetMeta("c01r", strconv.FormatUint(c01Hm(a, m), 10))
+	ctx.SetMeta("c01f", c01Extra(m+1))
 	return c01Payload(c01H(a, m), cd == 4), nil
 }
 
@@ -602,15 +616,15 @@ func (h *c01Svc) Fm(arg *C01Form) (*C01Form, *erpc.Status) {
 }
 
 func (h *c01Psh) Str(arg *string) *erpc.Status {
-	c01Enter(h.Session(), h.Seq(), h.PeekMeta("c01m"), *arg, true)
+	c01Enter(h.Session(), h.Seq(), h.PeekMeta("c01m"), *arg, true, h.PeekMeta("c01e"))
 	return nil
 }
 func (h *c01Psh) Pb(arg *msg.BenchmarkMessage) *erpc.Status {
-	c01Enter(h.Session(), h.Seq(), h.PeekMeta("c01m"), arg.Field1, true)
+	c01Enter(h.Session(), h.Seq(), h.PeekMeta("c01m"), arg.Field1, true, h.PeekMeta("c01e"))
 	return nil
 }
 func (h *c01Psh) Fm(arg *C01Form) *erpc.Status {
-	c01Enter(h.Session(), h.Seq(), h.PeekMeta("c01m"), arg.P, true)
+	c01Enter(h.Session(), h.Seq(), h.PeekMeta("c01m"), arg.P, true, h.PeekMeta("c01e"))
 	return nil
 }
 
@@ -632,6 +646,7 @@ func (r *c01Run) settings(m uint64, cd int) []erpc.MessageSetting {
 		erpc.WithBodyCodec(c01CodecIDs[cd]),
 		erpc.WithXferPipe(c01Pipes[r.cfg.pipe]...),
 		erpc.WithSetMeta("c01m", strconv.FormatUint(m, 10)),
+		erpc.WithSetMeta("c01e", c01Extra(m)),
 	}
 }
 
@@ -687,6 +702,8 @@ func (r *c01Run) finish(cmd erpc.CallCmd, p *c01Pending) (bool, uint64, uint64) 
 		r.viol("call-result", sig, "session %d end %d seq %d token %d meta %d: result token %d, want H = %d%s", p.s, p.d, seq, p.a, p.m, rt, c01H(p.a, p.m), detail)
 	case rm != c01Hm(p.a, p.m):
 		r.viol("call-result", "c01:result-mismatch", "session %d end %d seq %d token %d meta %d: reply metadata %d, want Hm = %d", p.s, p.d, seq, p.a, p.m, rm, c01Hm(p.a, p.m))
+	case string(cmd.InputMeta().Peek("c01f")) != c01Extra(p.m+1):
+		r.viol("call-result", "c01:result-mismatch", "session %d end %d seq %d token %d meta %d: second reply metadata value %q, want %q", p.s, p.d, seq, p.a, p.m, cmd.InputMeta().Peek("c01f"), c01Extra(p.m+1))
 	}
 	r.count("call:ok")
 	return true, rt, rm
